@@ -493,6 +493,18 @@ def fam_c07():
         add("mapitem-ok-%s" % key, mpre + [Try([LetMI("v", "ok", Idx(PV(1, Id("mm")), PV(2, S(key)))), P(Id("v")), P(Id("ok"))], "e", [P(60)]), Ret(I(0))])
         add("mapitem-ok-call-%s" % key, mpre + [Try([LetMI("v", "ok", Idx(Call("gm"), PV(2, S(key)))), P(Id("v")), P(Id("ok"))], "e", [P(60)]), Ret(I(0))])
     add("mapitem-ok-badkey", mpre + [Try([LetMI("v", "ok", Idx(PV(1, Id("mm")), BAD)), P(Id("v"))], "e", [P(60)]), Ret(I(0))])
+    # the left operand is the VALUE read before the right operand runs: a right operand that stores into the place it was read from does not change it
+    spre = [Let("la", L(I(10), I(20))), Let("ma", M((S("k"), I(10)))), Let("xa", I(10)),
+            FnStmt("bl", [], [Let([Idx(Id("la"), I(0))], [I(100)]), Ret(I(1))]), FnStmt("bm", [], [Let([Member(Id("ma"), "k")], [I(100)]), Ret(I(1))]), FnStmt("bx", [], [Let("xa", I(100)), Ret(I(1))])]
+    for op in ("+", "-", "*", "|", "&", "<", "==", "%", "<<"):
+        add("snapshot-item%s" % op, spre + [P(Bin(op, Idx(Id("la"), I(0)), Call("bl"))), P(Id("la")), Ret(I(0))])
+        add("snapshot-member%s" % op, spre + [P(Bin(op, Member(Id("ma"), "k"), Call("bm"))), P(Id("ma")), Ret(I(0))])
+        add("snapshot-var%s" % op, spre + [P(Bin(op, Id("xa"), Call("bx"))), P(Id("xa")), Ret(I(0))])
+        add("snapshot-paren-item%s" % op, spre + [P(Bin(op, {"k": "paren", "e": Idx(Id("la"), I(0))}, Call("bl"))), Ret(I(0))])
+    add("snapshot-list", spre + [P(L(Idx(Id("la"), I(0)), Call("bl"), Idx(Id("la"), I(0)))), Ret(I(0))])
+    add("snapshot-args", spre + [FnStmt("two", ["a", "b"], [Ret(Id("a"), Id("b"))]), P(Call("two", Idx(Id("la"), I(0)), Call("bl"))), Ret(I(0))])
+    add("snapshot-tern", spre + [P(Bin("+", Tern(B(True), Idx(Id("la"), I(0)), I(0)), Call("bl"))), Ret(I(0))])
+    add("snapshot-nilco", spre + [P(Bin("+", Nilco(Idx(Id("la"), I(0)), I(0)), Call("bl"))), Ret(I(0))])
     # literals, operators, index, return list, multi-assignment
     for bad in (None, 0, 1, 2):
         o = ops(3, bad)
